@@ -1393,6 +1393,17 @@ class _Idioms(ast.NodeTransformer):
     n.values = vals
     return n
 
+  def visit_Return(self, n):
+    # `return A if c else B`  ==  `if c: return A` / `else: return B`
+    self.generic_visit(n)
+    if isinstance(n.value, ast.IfExp) and _has(n.value, ast.Call):
+      g = ast.If(test=n.value.test,
+                 body=[self.visit_Return(ast.copy_location(ast.Return(value=n.value.body), n))],
+                 orelse=[self.visit_Return(ast.copy_location(
+                     ast.Return(value=n.value.orelse), n))])
+      return ast.fix_missing_locations(ast.copy_location(g, n))
+    return n
+
   def visit_For(self, n):
     # `if c: continue` as first statement of a loop body  ==  `if not c: <rest>`
     if n.body and isinstance(n.body[0], ast.If) and not n.body[0].orelse and \
